@@ -81,8 +81,9 @@ def write_evidence(pid, tier_, level, coverage, wall, violations, assumptions=()
         "wall_s": round(wall, 2),
         "violations": violations,
     }
-    os.makedirs(os.path.join(VERIF, "evidence"), exist_ok=True)
-    p = os.path.join(VERIF, "evidence", pid + ".json")
+    edir = os.environ.get("VERIF_EVIDENCE_DIR") or os.path.join(VERIF, "evidence")
+    os.makedirs(edir, exist_ok=True)
+    p = os.path.join(edir, pid + ".json")
     tmp = p + ".tmp"
     json.dump(ev, open(tmp, "w"), indent=1, sort_keys=True)
     os.replace(tmp, p)
@@ -90,7 +91,7 @@ def write_evidence(pid, tier_, level, coverage, wall, violations, assumptions=()
 
 
 def save_replay(pid, name, obj):
-    d = os.path.join(VERIF, "replays", pid)
+    d = os.path.join(os.environ.get("VERIF_REPLAY_DIR") or os.path.join(VERIF, "replays"), pid)
     os.makedirs(d, exist_ok=True)
     p = os.path.join(d, name + ".json")
     json.dump(obj, open(p, "w"), indent=1)
